@@ -194,6 +194,10 @@ def main(argv=None):
             for i_, s_ in enumerate(shards):
                 if i_ % 2 == 1 and "_prelude" not in s_:
                     s_["_prelude"] = True
+        only = os.environ.get("VERIF_ONLY_SHARD")
+        if only and not replay:
+            # debugging aid: run only the shards whose name contains the given text
+            shards = [s_ for i_, s_ in enumerate(shards) if only in str(s_.get("_name", f"s{i_}"))] or shards[:1]
         timeout = float(meta.get("shard_timeout", {}).get(tier, 900 if tier == "quick" else 3600))
         docs = []
         with cf.ThreadPoolExecutor(max_workers=env.jobs()) as ex:
@@ -293,7 +297,7 @@ def main(argv=None):
     for ln in lines:
         print(ln)
     for r in m["inconclusive"][:5]:
-        print(f"INCONCLUSIVE property={pid} reason={r[-500:]}")
+        print(f"INCONCLUSIVE property={pid} reason=" + " | ".join(x.strip() for x in r[-900:].splitlines() if x.strip()))
     if new:
         for v, _ in new[:10]:
             print("  witness:", json.dumps({k: v.get(k) for k in ("mechanism", "witness", "expected", "observed")})[:900])
